@@ -616,6 +616,10 @@ class CPubKey(bytes):
         return len(self) == 33
 
     def verify(self, hash, sig): # pylint: disable=redefined-builtin
+        if not self.is_fullyvalid:
+            # The key could not be parsed as a point on the curve; OpenSSL may
+            # still hold the bogus coordinates, so never verify against it
+            return False
         return self._cec_key.verify(hash, sig)
 
     def __str__(self):
